@@ -1,15 +1,18 @@
 (* C09 — observables are invariant under rigid motion and lattice translation.
    Only statements, closed by [exact], and Print Assumptions.
 
-   Rigid motion: x |-> M x + t with M = rotq a b c d, the Euler-Rodrigues matrix of an integer quaternion;
-   the rotation is R = M/n, n = a^2+b^2+c^2+d^2 > 0 (every rotation matrix with rational entries has this
-   form; they are dense in SO(3)).  In the scaled frame squared lengths pick up n^2, triple products n^3;
-   dividing by the scale gives the statement for R.  Rotations with irrational entries are covered only by
-   the metamorphic runs (float32 coordinates), not by these theorems.
+   Rigid motion: x |-> M x + t.  General form (section "GENERAL FORM"): ANY integer matrix with M^T M = s I
+   (R = M/sqrt s orthogonal; proper iff det M > 0), plus the literal real-number statements for any real R
+   with R^T R = I.  First the special case M = rotq a b c d (Euler-Rodrigues matrix of an integer
+   quaternion, R = M/n, n = a^2+b^2+c^2+d^2): squared lengths pick up n^2, triple products n^3.
+   Float32 rounding of transformed coordinates is covered only by the metamorphic runs.
    Lattice translation: statements about the C05 model of the minimum-image code, reused here. *)
 From Coq Require Import ZArith List Bool Lia.
 Import ListNotations.
-Require Import MD.PBC.Model MD.PBC.Proofs MD.Invar.Model MD.Invar.Proofs.
+Require Import MD.PBC.Model MD.PBC.Proofs MD.Invar.Model MD.Invar.Proofs MD.Invar.Orth.
+From Coq Require Import Rdefinitions Raxioms RIneq.
+Close Scope R_scope.
+Require MD.Invar.RealRot MD.Invar.NeighShift MD.Neigh.Model.
 Open Scope Z_scope.
 
 (* ---- the algebra *)
@@ -87,6 +90,98 @@ Theorem centering_rigid_covariant_partial : forall a b c d tx ty tz l,
 Proof. exact centered_rigid. Qed.
 Print Assumptions centering_rigid_covariant_partial.
 
+(* ==== GENERAL FORM: any 3x3 matrix M with M^T M = s I (six polynomial equations; s = 1 is R^T R = I, the
+   scale makes the statements cover rotations with rational entries, R = M/sqrt s).  det M > 0: proper rigid
+   motion; det M < 0: improper (mirror image).  All closed under the global context. *)
+Theorem dot_rot_general : forall M s x y, orth_scaled M s -> dot (mv M x) (mv M y) = s * dot x y.
+Proof. exact dot_orth. Qed.
+Print Assumptions dot_rot_general.
+
+Theorem det_of_orthogonal : forall M s, orth_scaled M s -> det3 M * det3 M = s * s * s.
+Proof. exact det_orth. Qed.
+Print Assumptions det_of_orthogonal.
+
+(* s (Mx) x (My) = det M . M (x x y): with s = 1, det = 1 this is R(x x y) = (Rx) x (Ry); det = -1 flips the sign *)
+Theorem cross_rot_general : forall M s x y, orth_scaled M s ->
+  vscale s (cross (mv M x) (mv M y)) = vscale (det3 M) (mv M (cross x y)).
+Proof. exact cross_orth. Qed.
+Print Assumptions cross_rot_general.
+
+Theorem distance_invariant_general : forall M s, orth_scaled M s -> forall tx ty tz x y,
+  dist2_obs (rigid M (tx, ty, tz) x) (rigid M (tx, ty, tz) y) = s * dist2_obs x y.
+Proof. exact dist2_orth. Qed.
+Print Assumptions distance_invariant_general.
+
+Theorem angle_invariant_general : forall M s, orth_scaled M s -> forall tx ty tz xa xb xc,
+  let g := rigid M (tx, ty, tz) in
+  angle_obs (g xa) (g xb) (g xc) = let '(p, l1, l2) := angle_obs xa xb xc in (s * p, s * l1, s * l2).
+Proof. exact angle_orth. Qed.
+Print Assumptions angle_invariant_general.
+
+(* dihedral: (|b2|^2, T, P) -> (s |b2|^2, det M T, s^2 P) and det^2 = s^3, so both atan2 arguments are multiplied
+   by s^2 > 0 up to the SIGN of det on the first: a proper motion keeps the dihedral, a mirror image negates it *)
+Theorem dihedral_general : forall M s, orth_scaled M s -> forall tx ty tz x0 x1 x2 x3,
+  let g := rigid M (tx, ty, tz) in
+  dihedral_obs (g x0) (g x1) (g x2) (g x3) =
+  let '(l2, tr, pp) := dihedral_obs x0 x1 x2 x3 in (s * l2, det3 M * tr, s * s * pp).
+Proof. exact dihedral_orth. Qed.
+Print Assumptions dihedral_general.
+
+Theorem dihedral_sign_proper_and_mirror : forall M tr,
+  (0 < det3 M -> Z.sgn (det3 M * tr) = Z.sgn tr) /\ (det3 M < 0 -> Z.sgn (det3 M * tr) = - Z.sgn tr).
+Proof. intros M tr. split; [apply dihedral_sign | apply dihedral_sign_mirror]. Qed.
+Print Assumptions dihedral_sign_proper_and_mirror.
+
+(* Rg, gyration-tensor invariants and all pair distances: invariant under proper AND improper motions *)
+Theorem rg_invariant_general : forall M s, orth_scaled M s -> forall tx ty tz l,
+  rg_obs (map (rigid M (tx, ty, tz)) l) = s * rg_obs l.
+Proof. exact rg_orth. Qed.
+Print Assumptions rg_invariant_general.
+
+Theorem gyration_invariant_general : forall M s tx ty tz l, orth_scaled M s ->
+  let g := rigid M (tx, ty, tz) in
+  trace (gyration (map g l)) = s * trace (gyration l) /\
+  minor2 (gyration (map g l)) = s * s * minor2 (gyration l) /\
+  det3 (gyration (map g l)) = s * s * s * det3 (gyration l).
+Proof. exact gyration_invariants_orth. Qed.
+Print Assumptions gyration_invariant_general.
+
+Theorem pair_distances_invariant_general : forall M s, orth_scaled M s -> forall tx ty tz l,
+  pair_dists (map (rigid M (tx, ty, tz)) l) = map (fun q => s * q) (pair_dists l).
+Proof. exact pair_dists_orth. Qed.
+Print Assumptions pair_distances_invariant_general.
+
+(* the hypotheses are satisfiable: quaternion rotations (s = n^2, det = n^3), a proper and an improper integer
+   matrix with s = 9, and the mirror z -> -z with s = 1 *)
+Example orthogonal_matrices_exist :
+  (forall a b c d, orth_scaled (rotq a b c d) (qn a b c d * qn a b c d)) /\
+  ((orth_scaled improper_example 9 /\ det3 improper_example = -27) /\
+   (orth_scaled proper_example 9 /\ det3 proper_example = 27)) /\
+  (orth_scaled mirror_z 1 /\ det3 mirror_z = -1).
+Proof. split; [exact rotq_orth_scaled | split; [exact orth_example | exact mirror_orth]]. Qed.
+Print Assumptions orthogonal_matrices_exist.
+
+(* ==== over the REAL numbers: any real matrix with R^T R = I (these list the standard real-number axioms) *)
+Theorem dot_rot_real : forall M x y, RealRot.orthogonal M -> RealRot.rdot (RealRot.rmv M x) (RealRot.rmv M y) = RealRot.rdot x y.
+Proof. exact RealRot.rdot_orth. Qed.
+Print Assumptions dot_rot_real.
+
+Theorem cross_rot_real : forall M x y, RealRot.orthogonal M -> RealRot.rdet M = 1%R ->
+  RealRot.rcross (RealRot.rmv M x) (RealRot.rmv M y) = RealRot.rmv M (RealRot.rcross x y).
+Proof. exact RealRot.rcross_orth. Qed.
+Print Assumptions cross_rot_real.
+
+Theorem triple_rot_real : forall M u v w,
+  RealRot.rtriple (RealRot.rmv M u) (RealRot.rmv M v) (RealRot.rmv M w) = (RealRot.rdet M * RealRot.rtriple u v w)%R.
+Proof. exact RealRot.rtriple_mat. Qed.
+Print Assumptions triple_rot_real.
+
+(* the distance WITH its square root, any orthogonal matrix (proper or not) and any translation *)
+Theorem distance_rigid_invariant_real : forall M t x y, RealRot.orthogonal M ->
+  RealRot.rdist (RealRot.rrigid M t x) (RealRot.rrigid M t y) = RealRot.rdist x y.
+Proof. exact RealRot.rdist_rigid. Qed.
+Print Assumptions distance_rigid_invariant_real.
+
 (* ---- periodic systems: per-atom lattice shifts t_i and a whole-system translation s *)
 Theorem mic_displacement_shift_invariant : forall p B x1 x2 t1 t2 s, tie_free_path p B (vsub x2 x1) ->
   path_disp p B (vsub (moved B s x2 t2) (moved B s x1 t1)) = path_disp p B (vsub x2 x1).
@@ -124,6 +219,21 @@ Theorem neighborlist_fixed_shift_invariant : forall L c xs ks, 0 < L -> length k
   nl_fix L c (shift1d L xs ks) = nl_fix L c xs.
 Proof. exact nl_fix_shift_invariant. Qed.
 Print Assumptions neighborlist_fixed_shift_invariant.
+
+(* ---- the same two statements over C10's FULL voxel model of _compute_neighborlist (coq/Neigh/Model.v):
+   every cell (triclinic included), every cutoff, arbitrary per-atom lattice shifts *)
+Theorem neighborlist_voxel_shift_invariant_refuted :
+  exists B c xyz ks, NeighShift.box_pos B /\ 0 < c /\
+    2 * c <= Neigh.Model.b_ax B /\ 2 * c <= Neigh.Model.b_by B /\ 2 * c <= Neigh.Model.b_cz B /\
+    length ks = length xyz /\
+    Neigh.Model.nlist_cur (Some B) c (NeighShift.shift_atoms B xyz ks) <> Neigh.Model.nlist_cur (Some B) c xyz.
+Proof. exact NeighShift.nlist_cur_shift_refuted. Qed.
+Print Assumptions neighborlist_voxel_shift_invariant_refuted.
+
+Theorem neighborlist_voxel_fixed_shift_invariant : forall B c xyz ks, NeighShift.box_pos B -> length ks = length xyz ->
+  Neigh.Model.nlist_fix (Some B) c (NeighShift.shift_atoms B xyz ks) = Neigh.Model.nlist_fix (Some B) c xyz.
+Proof. exact NeighShift.nlist_fix_shift_invariant. Qed.
+Print Assumptions neighborlist_voxel_fixed_shift_invariant.
 
 (* ---- non-vacuity *)
 Example rotation_example :
